@@ -31,7 +31,15 @@ SPEC = dict(
           "each as a struct and through the JSON form (every component trimmed with the range inverted [1,0] / [max,max-1] / [e+1,e] / random, "
           "wrapped [0,max], zero value, honest rows; honest components under an inverted range that wraps to the right count, inverted to "
           "zero, swapped, EndRow or StartRow = MaxUint32, full range; zero rows with the subtree roots kept); GetProof+Included honest / nil / absent commitment / 16 "
-          "tamper families, and Proof.equal directly. nodebuilder/share: deterministic squares of namespace runs, ranges inside one namespace "
+          "tamper families, and Proof.equal directly; "
+          "for EVERY blob of every block (c12ProofRows), on the blocks above plus, per run, 8 hand-placed and 2 builder-made squares in which blobs of one "
+          "namespace follow each other so that a blob starts in the row in which a predecessor spanning >= 2 rows ended (chains of 2..4, the smallest: 4x4 "
+          "ODS, shares 0..5 then 6..7): GetProof must return exactly one nmt proof per row the blob occupies (rows computed from the builder's start index / "
+          "share count and the square width; components compared with the row proofs taken straight from the square and verified against the row roots), "
+          "Included must accept exactly that proof, and refuse it padded in front with the preceding row's / the previous blob's row proofs, padded behind, "
+          "trimmed, and the proof of a neighbouring blob (L3 sigs proof-rows-wrong, included-own-proof-rejected, included-padded-proof-accepted, "
+          "included-neighbour-proof-accepted, included-trimmed-proof-accepted); the same GetProof answers are one L2 case per namespace (group proofrows: "
+          "the parser model's proofs bookkeeping, Blob/Parser.v get_proof_rows via Blob/ProofRows.v, must name the same row proofs). nodebuilder/share: deterministic squares of namespace runs, ranges inside one namespace "
           "(whole namespace, single share, random), newGetRangeResult+Verify honest and under 25 tamper families. nodebuilder/blobstream: "
           "header chains of 1..21 (thorough: ..257) heights behind a getter with the go-header store's range semantics, plus the real go-header "
           "store once; encoding at boundary heights, range/request validation at boundaries incl. the 10000-block limit, every produced proof "
@@ -50,7 +58,10 @@ SPEC = dict(
         "RowProof, celestia-app pkg/proof are primitives: CommitmentProof.Verify and GetRangeResult.Verify are modelled over their observed answers (theorems hold for "
         "every instantiation); that an NMT subtree-root / inclusion proof binds shares to a row root is the libraries' property, not proved here",
         "byte strings are abstracted to ids by the harness (equal bytes <-> equal id; nil = empty, as for bytes.Equal)",
-        "Included's own proof comes from retrieve (C11 model covers which blob is found); the header getter is a function height -> data root; the fake getter "
+        "Included's own proof comes from retrieve: which blob is found is C11's model (Blob/Parser.v), which rows' proofs retrieve collects for it (append per row, "
+        "keep the last after a multi-row blob that did not verify, drop all after a row that ends with an empty parser) is transcribed there too and tied by "
+        "the proofrows cases (Blob/ProofRows.v, no theorem of its own: that the collected rows are exactly the blob's rows is checked by the L3 oracle against "
+        "the builder's record, not proved); the header getter is a function height -> data root; the fake getter "
         "mirrors the go-header store (empty range refused), the real store is exercised once per run",
         "unauthenticated metadata of a CommitmentProof (NamespaceID/Version, StartRow/EndRow shifted together, nmt leaf hash / flag inside it) and a Merkle proof's "
         "Total widened without changing the path are not bound by verification; the oracle does not count their acceptance as a forgery",
